@@ -33,17 +33,23 @@ Definition ambiguous (a : automation) : bool :=
   let ds := map (fun m => fst (fst (mod_tick m))) (a_mods a) in
   let s := qsum ds in
   let nz := List.length (filter (fun d => negb (Qeq_bool d 0)) ds) in
-  if Qeq_bool s 0 then (2 <=? nz)%nat
+  if Qeq_bool s 0 then
+    (* ... nor when a move whose exact delta is 0 is active (move_to the value already reached): in floats the
+       value reached carries a residual (1e-14) that such a move "moves", with binding calls *)
+    (2 <=? nz)%nat || existsb (fun m => Qeq_bool (m_delta m) 0) (a_mods a)
   else Qle_bool (Qabs s) ((1 # 1000000000000) * (1 + Qabs (a_cv a))).
 
-(* one tick: value close; flag = "every binding was called once with the new value" iff the model calls *)
+(* one tick: value close; when the model calls (the exact value changed) the flag "every binding was called
+   exactly once with the new value" must be set; when the model does not call, the implementation may still have
+   re-sent the (unchanged to 1e-9) value to every binding: the property demands that every new value is
+   delivered, not silence *)
 Definition check_tick (a : automation) (lit : int) : bool * automation :=
   let '(z, flag) := dec lit in
   let amb := ambiguous a in
   let '(a1, calls) := tick a in
   let called := match calls with [] => false | _ => true end in
   (close_value a1 z &&
-   (match a_binds a with [] => negb flag | _ => amb || Bool.eqb flag called end), a1).
+   (match a_binds a with [] => negb flag | _ => amb || implb called flag end), a1).
 
 Fixpoint check_ticks (a : automation) (lits : list int) : bool * automation :=
   match lits with
